@@ -56,3 +56,17 @@ Theorem index_exponent_executed : forall q d bc bo, prime (Z.of_N q) -> (bc mod 
   mulm q (invm q bc) (mulm q bo (mulm q bc d)) = mulm q bo d.
 Proof. exact exec_index_exponent. Qed.
 Print Assumptions index_exponent_executed.
+
+(** ... and with the executed KDF (Model/Derive.v [compute_index]: the Coq HKDF-SHA-384 with the label of the source, see
+    Gen/Tie_C08.v) over ANY encoding of exponents as points: the ID the attester computes is the closed form's, and is
+    the same for every non-zero request blind *)
+Theorem index_executed_closed_form : forall q (enc : N -> list Byte.byte) d bc bo, prime (Z.of_N q) -> (bc mod q <> 0)%N ->
+  compute_index (enc (d mod q)%N) (enc (mulm q (invm q bc) (mulm q bo (mulm q bc d)))) =
+  compute_index (enc (d mod q)%N) (enc (mulm q bo d)).
+Proof. exact exec_index_closed_form. Qed.
+Theorem index_executed_stable : forall q (enc : N -> list Byte.byte) d bo bc bc', prime (Z.of_N q) -> (bc mod q <> 0)%N -> (bc' mod q <> 0)%N ->
+  compute_index (enc (d mod q)%N) (enc (mulm q (invm q bc) (mulm q bo (mulm q bc d)))) =
+  compute_index (enc (d mod q)%N) (enc (mulm q (invm q bc') (mulm q bo (mulm q bc' d)))).
+Proof. exact exec_index_stable. Qed.
+Print Assumptions index_executed_closed_form.
+Print Assumptions index_executed_stable.
